@@ -28,11 +28,12 @@ func ruleKeyIdentClassified(c *Ctx, u *Universe) {
 	}
 	n, ok := 0, true
 	for _, h := range family(g, 1) {
-		if h.Pkg != g.Pkg {
-			continue
+		// the function itself, its closures, and helpers split off it (functions the reference inventory does not know)
+		root := h
+		for root.Parent() != nil {
+			root = root.Parent()
 		}
-		// only functions that build dictionaries
-		if len(u.callsNamed(h, "pkg/value.NewHashMap")) == 0 {
+		if h.Pkg != g.Pkg || (root != g && listedFunction("pkg/exec", u.fname(root))) {
 			continue
 		}
 		for _, in := range instrsOf(h) {
